@@ -90,7 +90,7 @@ type Job struct {
 	CT, EH  string
 	Stream  bool
 	Comp    string // gen-chunks | gen-wrapped
-	Outcome string // ok | err | cancel | nested
+	Outcome string // ok | err | cancel | nested | panic
 	Sizes   []int
 	Via     string
 }
@@ -130,6 +130,9 @@ func (a *Args) After(ctx context.Context) (string, error) {
 			c()
 		}
 		return "", ctx.Err()
+	case "panic":
+		var m map[string]int
+		m["x"] = 1 // runtime error: assignment to entry in nil map
 	}
 	return "", nil
 }
@@ -141,10 +144,25 @@ func (a *Args) Nested(ctx context.Context) (string, error) {
 }
 
 type Obs struct {
-	Status int
-	Header http.Header
-	Body   string // blob reference
-	Err    string
+	Status   int
+	Header   http.Header
+	Body     string // blob reference
+	Err      string
+	Panicked bool // recorder: a panic left ServeHTTP
+	Touched  bool // recorder: WriteHeader or Write had been called
+}
+
+type trackWriter struct {
+	http.ResponseWriter
+	touched bool
+}
+
+func (t *trackWriter) WriteHeader(c int)           { t.touched = true; t.ResponseWriter.WriteHeader(c) }
+func (t *trackWriter) Write(p []byte) (int, error) { t.touched = true; return t.ResponseWriter.Write(p) }
+func (t *trackWriter) Flush() {
+	if f, ok := t.ResponseWriter.(http.Flusher); ok {
+		f.Flush()
+	}
 }
 
 type Event struct {
@@ -260,9 +278,17 @@ func main() {
 			}
 		} else {
 			rec := httptest.NewRecorder()
-			wrapped.ServeHTTP(rec, httptest.NewRequest(http.MethodGet, "/", nil))
+			tw := &trackWriter{ResponseWriter: rec}
+			func() {
+				defer func() {
+					if p := recover(); p != nil {
+						ev.Got.Panicked = true
+					}
+				}()
+				wrapped.ServeHTTP(tw, httptest.NewRequest(http.MethodGet, "/", nil))
+			}()
 			res := rec.Result()
-			ev.Got.Status, ev.Got.Header, ev.Got.Body = res.StatusCode, res.Header, blob(rec.Body.Bytes())
+			ev.Got.Status, ev.Got.Header, ev.Got.Body, ev.Got.Touched = res.StatusCode, res.Header, blob(rec.Body.Bytes()), tw.touched
 		}
 		// fault-free direct rendering of the same component
 		ok := j
@@ -281,10 +307,12 @@ func main() {
 `
 
 type genObs struct {
-	Status int
-	Header http.Header
-	Body   string
-	Err    string
+	Status   int
+	Header   http.Header
+	Body     string
+	Err      string
+	Panicked bool
+	Touched  bool
 }
 
 type genEvent struct {
@@ -365,7 +393,7 @@ func (g *genSession) run(cases []Case) (map[int]verdict, string) {
 		if ev.DErr != "" || !bytes.Contains(d, []byte("TAIL")) {
 			return nil, "direct fault-free rendering failed: " + ev.DErr
 		}
-		got := observation{Status: ev.Got.Status, Header: ev.Got.Header, Body: blobs[ev.Got.Body], Err: ev.Got.Err}
+		got := observation{Status: ev.Got.Status, Header: ev.Got.Header, Body: blobs[ev.Got.Body], Err: ev.Got.Err, Panicked: ev.Got.Panicked, Touched: ev.Got.Touched}
 		if got.Header == nil {
 			got.Header = http.Header{}
 		}
@@ -404,7 +432,7 @@ func genReference(cs Case, d []byte) http.Handler {
 			_, _ = w.Write(d)
 		case cs.EH != "":
 			w.Header().Set("Content-Type", ct)
-			errorHandlerText(cs.EH, func(error) string { return "sentinel" })(r, errFail).ServeHTTP(w, r)
+			errorHandlerText(cs.EH, func(error) string { return "sentinel" }, true)(r, errFail).ServeHTTP(w, r)
 		default:
 			w.Header().Set("Content-Type", "text/plain; charset=utf-8")
 			w.Header().Set("X-Content-Type-Options", "nosniff")
